@@ -210,6 +210,28 @@ V("C13/chain/verus", ["C13", "C14", "C04", "C02"], "chain.vspec",
   "for chains of ANY length and any Repeat / Make implementation satisfying their contracts: push on Ok appends exactly the denoted legal move (board == apply, undo recorded, table +1), on Err changes nothing; pop removes exactly the last entry, restores the previous board, clears the outcome, table -1; lemmas: the chain invariant (board == replay(start, moves), undo data and legality of every entry, table == multiset of all positions so far) is established by new and preserved by push/pop/outcome operations; calc_outcome satisfies the C14 precedence relation; set_auto_outcome stores exactly when the filter passes",
   assumes=STEP + ["C07/calc-outcome", "C11/try-from/normalised", "C20/types/outcome-filter"])
 
+# ---------------------------------------------------------------------------------------------
+# C02 the safe application path; C10 UCI
+# ---------------------------------------------------------------------------------------------
+MK = "moves::make::verif_kani::"
+for _s, _k in KINDS + [("null", "Null")]:
+    for _c in ("w", "b"):
+        K("C02/make-move/%s/%s" % (_k, _c), ["C02", "C01", "C04"], MK + "c02_make_%s_%s" % (_s, _c),
+          ["<Move as Make>::make_raw", "<TryUnchecked as Make>::make_raw", "Move::semi_validate", "moves::base::make_move_unchecked", "moves::base::unmake_move_unchecked", "Board::is_opponent_king_attacked"],
+          "for all well-formed boards (side %s, one king each, consistent mark, normalised rights, any counters) x all WELL-FORMED moves of kind %s: make_raw is Ok iff the move is legal by the rules; on Ok the position is ref_apply(..) with well-formed derived sets and the mover's king is not attacked; on Err every field, the hash and all 16 sets are exactly as before; no panic" % (_c, _k),
+          assumes=ATT, timeout=3000, mem_gb=16)
+UC = "moves::uci::verif_kani::"
+for _c in ("w", "b"):
+    K("C10/into-move/%s" % _c, ["C10", "C02", "C12"], UC + "c10_into_move_%s" % _c, ["uci::Move::into_move", "uci::Move::do_into_move", "<uci::Move as From<Move>>::from"],
+      "for all well-formed boards (side %s) x all UCI values (64x64x5): Ok(m) => m has those squares / that promotion, is well-formed and writes back to the same value; and whenever a pseudo-legal move of ANY kind has those squares and promotion, into_move returns exactly that move (kind inference; round trip; reader accepts iff such a move exists, with C06)" % _c,
+      assumes=["C06/well-formed"] + ["C06/semilegal/%s/%s" % (_k, _c) for _s, _k in KINDS], timeout=2400)
+K("C10/null", ["C10", "C02"], UC + "c10_null_uci", ["uci::Move::into_move", "Move::semi_validate", "Move::validate"], "'0000' resolves to the null move, which no checking reader and no Make impl accepts")
+K("C10/text/from-str", ["C10", "C12", "C02"], UC + "c10_uci_from_str_all_short_strings", ["<uci::Move as FromStr>::from_str"],
+  "for all UTF-8 strings of <= 6 bytes: no panic; Ok iff '0000' or [a-h][1-8][a-h][1-8][nbrq]?, with the value as written (complete for the property's 20 481 strings and for every acceptable string)",
+  bounded="strings of <= 6 bytes (every accepted string has 4 or 5)", timeout=1800)
+K("C10/text/display", ["C10", "C12"], UC + "c10_uci_display_parses_back", ["<uci::Move as Display>::fmt", "<uci::Move as FromStr>::from_str"],
+  "for all 20 481 UCI values: the text is the coordinate notation and parses back to the value", timeout=1800)
+
 
 def by_id():
     return {o["id"]: o for o in OBS}
